@@ -1234,6 +1234,12 @@ func c09RandomWorld(rng *rand.Rand) (c09WorldIn, int) {
 		mkset("Ks", members, powers)
 		in.Blocks["K"] = c09Block{ID: "K", Hid: "K", H: int64(H), T: int64(10*H + 4), Vh: "Ks", Nvh: "Ks", Vsh: "Ks",
 			Sigs: sigs(in.VSets["Ks"], all(in.VSets["Ks"]), nil), Last: "R" + strconv.Itoa(H-1), Wf: true}
+		// forward lunatic family: the same forgery with a CHOSEN time relative to the genuine head
+		// R(H-1) that a lagging honest witness still has: one tick before, equal, one tick after
+		for id, off := range map[string]int{"Km": -1, "Ke": 0, "Kp": 1} {
+			in.Blocks[id] = c09Block{ID: id, Hid: id, H: int64(H), T: int64(10*(H-1) + off), Vh: "Ks", Nvh: "Ks", Vsh: "Ks",
+				Sigs: sigs(in.VSets["Ks"], all(in.VSets["Ks"]), nil), Last: "R" + strconv.Itoa(H-1), Wf: true}
+		}
 	}
 	// a forged header at the top height whose only validator (v9) is in no set of the chain:
 	// it can never reach the trust level of any trusted set
@@ -1404,6 +1410,43 @@ func c09RandomRun(rng *rand.Rand, in c09WorldIn, H int) c09Run {
 			acc := make([][]string, H+1)
 			copy(acc, pt)
 			roles = append(roles, acc)
+		}
+		rng.Shuffle(len(roles), func(i, j int) { roles[i], roles[j] = roles[j], roles[i] })
+		for i, n := range r.Wits {
+			r.Prov[n] = roles[i]
+		}
+		r.Cfg.Num, r.Cfg.Den = 1, 3
+	}
+	// forward lunatic attack with a chosen timestamp: the primary (and an accomplice witness) serve
+	// a forged top header whose time is one tick before / equal to / one tick after the head of an
+	// honest witness that lags one block behind; that witness advances during the wait or not, or
+	// reaches that head only at its second look
+	if !holeTarget && nw >= 2 && H >= 3 && rng.Intn(6) == 0 {
+		root = 1
+		holeTarget = true
+		fid := []string{"Km", "Ke", "Kp", "Ke"}[rng.Intn(4)]
+		pt := honest()
+		pt[H] = []string{fid}
+		pt[0] = []string{fid}
+		r.Prov["p"] = pt
+		lag := honest()
+		lag[H] = []string{"TooHigh"}
+		switch rng.Intn(4) {
+		case 0: // advances during the wait
+			lag[0] = []string{"R" + strconv.Itoa(H-1), "R" + strconv.Itoa(H)}
+			lag[H] = []string{"TooHigh", "R" + strconv.Itoa(H)}
+		case 1: // reaches the head only at the second look
+			if H >= 3 {
+				lag[0] = []string{"R" + strconv.Itoa(H-2), "R" + strconv.Itoa(H-1)}
+			}
+		default: // stays
+			lag[0] = []string{"R" + strconv.Itoa(H-1)}
+		}
+		acc := make([][]string, H+1)
+		copy(acc, pt)
+		roles := [][][]string{lag, acc}
+		if nw == 3 {
+			roles = append(roles, persona(false))
 		}
 		rng.Shuffle(len(roles), func(i, j int) { roles[i], roles[j] = roles[j], roles[i] })
 		for i, n := range r.Wits {
